@@ -156,7 +156,7 @@ func genbankText(feats []gbFeature, ref string) []string {
 }
 
 func C14(c *core.Ctx) {
-	c.Explanation("C14: for eight feature layouts expressible in both formats (forward gene, overlapping genes, complement, join with segment lengths not divisible by three, join with lengths divisible by three, complement(join), a partial gene with codon_start=2 / phase 1, extra non-CDS features) RegionsFromGenbank and RegionsFromGFF are interpreted and must return the same regions (name, strand, start, stop, ordered position list, translation) and the same intergenic list, both equal to an independent reading of the location expression (join = concatenation, complement = reversal, codon_start/phase trims the 5' end once; later GFF rows' phases describe codons that straddle the join and remove nothing). For three layouts the same comparison is made end to end from file text: ReadGenBank and ReadGFF are interpreted against the scanner model on equivalent GenBank and GFF3 texts. The regions each constructor builds are also handed to GetVariantsPair for every single-base change of the reference under every layout (incl. two ribosomal-slippage joins that read one base twice and are listed in an order that differs from start order): the two lists of records must be equal as multisets. Not decided: location syntaxes outside these shapes, '<'/'>' partial markers, multi-line locations.")
+	c.Explanation("C14: for eight feature layouts expressible in both formats (forward gene, overlapping genes, complement, join with segment lengths not divisible by three, join with lengths divisible by three, complement(join), a partial gene with codon_start=2 / phase 1, extra non-CDS features) RegionsFromGenbank and RegionsFromGFF are interpreted and must return the same regions (name, strand, start, stop, ordered position list, translation) and the same intergenic list, both equal to an independent reading of the location expression (join = concatenation, complement = reversal, codon_start/phase trims the 5' end once; later GFF rows' phases describe codons that straddle the join and remove nothing). For three layouts the same comparison is made end to end from file text: ReadGenBank and ReadGFF are interpreted against the scanner model on equivalent GenBank and GFF3 texts. The regions each constructor builds are also handed to GetVariantsPair for every single-base change of the reference under every layout (incl. two ribosomal-slippage joins that read one base twice and are listed in an order that differs from start order): the two lists of records must be equal as multisets. A location wrapped over two lines must be read whole or rejected (never silently cut at the line break). Locations with '<'/'>' partial markers must be read as the marked range or rejected. Not decided: location syntaxes outside these shapes.")
 	checkReferenceRecordName(c, "R6")
 	var bad, badSpec []string
 	n := 0
@@ -312,6 +312,65 @@ func c14Text(c *core.Ctx) {
 		}
 	}
 	c.Ob("R3/text/parsed-files-give-same-regions", len(bad) == 0, rg.Pos(), "%s", first(bad, 3))
+	// a location wrapped over two lines (GenBank breaks long joins after a comma): read whole, or rejected - a gene
+	// silently cut at the line break would give other mutations than the GFF form of the same annotation
+	{
+		var badWrap []string
+		for _, loc := range []string{"join(1..6,10..15)", "complement(join(4..9,16..21))", "join(1..3,7..9,13..18)"} {
+			feats := []gbFeature{{"CDS", loc, "g1", 1}}
+			regionsOf := func(lines []string) (regionsOut, string) {
+				ev := newEval(c)
+				installBytesAndRegexp(ev, lines)
+				gv, err := ev.CallFunc(rg, eval.Opaque{Why: "genbank file"})
+				if err != nil {
+					return regionsOut{}, "undecided: " + err.Error()
+				}
+				gt, ok := gv.(eval.Tuple)
+				if !ok || len(gt) != 2 {
+					return regionsOut{}, "undecided: unexpected result of ReadGenBank"
+				}
+				if _, isErr := gt[1].(eval.ErrVal); isErr {
+					return regionsOut{err: "rejected by ReadGenBank"}, ""
+				}
+				bv, err := ev.CallFunc(fg, gt[0], eval.K(int64(len(annoRef))))
+				if err != nil {
+					if strings.Contains(err.Error(), "out of range") {
+						// the program stops with a run-time panic: not a reading of the gene (that such input is not refused
+						// with a message is outside this property)
+						return regionsOut{err: "the location parser indexes out of range (" + err.Error() + ")"}, ""
+					}
+					return regionsOut{}, "undecided: " + err.Error()
+				}
+				return readRegions(bv), ""
+			}
+			whole, und := regionsOf(genbankText(feats, annoRef))
+			if und != "" || whole.err != "" {
+				c.Und("R3/text/wrapped-location-read-whole-or-rejected", rg.Pos(), "%s on one line: %s %s", loc, und, whole.err)
+				continue
+			}
+			// the same text with the location broken after its last comma
+			var wrapped []string
+			for _, l := range genbankText(feats, annoRef) {
+				if i := strings.LastIndex(l, ","); i >= 0 && strings.HasSuffix(l, loc) {
+					wrapped = append(wrapped, l[:i+1], strings.Repeat(" ", 21)+l[i+1:])
+					continue
+				}
+				wrapped = append(wrapped, l)
+			}
+			got, und := regionsOf(wrapped)
+			if und != "" {
+				c.Und("R3/text/wrapped-location-read-whole-or-rejected", rg.Pos(), "%s wrapped: %s", loc, und)
+				continue
+			}
+			if got.err != "" {
+				c.Note("a GenBank location wrapped over two lines (%s) is not read: %s", loc, got.err)
+			}
+			if got.err == "" && (!sameSet(got.regions, whole.regions) || fmt.Sprint(got.inter) != fmt.Sprint(whole.inter)) {
+				badWrap = append(badWrap, fmt.Sprintf("%s broken after its last comma is accepted and read as %v (intergenic %v); on one line it is %v (intergenic %v)", loc, got.regions, got.inter, whole.regions, whole.inter))
+			}
+		}
+		c.Ob("R3/text/wrapped-location-read-whole-or-rejected", len(badWrap) == 0, funcPos(c, "pkg/genbank", "parseGenbankFEATURES"), "%s", first(badWrap, 3))
+	}
 	// the reference taken from ORIGIN keeps every IUPAC letter, so coordinates agree with the GFF's ##FASTA record
 	{
 		amb := "ACGTRYKMSWBDHVNNACGTACGTRYACGT"
@@ -374,7 +433,35 @@ func c14Translations(c *core.Ctx) {
 			}
 		}
 	}
-	c.Count("locations_evaluated", len(locs))
+	// partial-feature markers ('<' before the first, '>' before the last coordinate): the gene is the marked range
+	// (the GFF form of the same gene has plain coordinates), or the annotation is refused (an error, or a run-time
+	// panic: not a reading); never a region over some other set of positions. Decided on the regions
+	// RegionsFromGenbank builds, not on GetPositions alone (an empty position list stops the constructor).
+	var badPartial []string
+	partial := []string{"<4..9", "4..>9", "<4..>9", "join(<1..3,7..9)", "join(1..3,7..>9)", "complement(<4..9)", "complement(4..>9)", "complement(join(<4..9,16..>21))",
+		"join(complement(<16..21),complement(4..9))", "join(complement(16..21),complement(4..>9))"}
+	for _, l := range partial {
+		plain := strings.NewReplacer("<", "", ">", "").Replace(l)
+		want := evalRegionsGenbank(c, []gbFeature{{"CDS", plain, "g1", 1}}, annoRef)
+		got := evalRegionsGenbank(c, []gbFeature{{"CDS", l, "g1", 1}}, annoRef)
+		if want.err != "" {
+			badPartial = append(badPartial, fmt.Sprintf("%s: undecided: %s", plain, want.err))
+			continue
+		}
+		if got.err != "" {
+			if strings.HasPrefix(got.err, "undecided") && !strings.Contains(got.err, "out of range") && !strings.Contains(got.err, "panic") {
+				badPartial = append(badPartial, fmt.Sprintf("%s: %s", l, got.err))
+			} else {
+				c.Note("a GenBank location with partial markers (%s) is not read: %s", l, strings.TrimPrefix(got.err, "undecided: "))
+			}
+			continue
+		}
+		if !sameSet(got.regions, want.regions) || fmt.Sprint(got.inter) != fmt.Sprint(want.inter) {
+			badPartial = append(badPartial, fmt.Sprintf("%s is accepted and gives %v (intergenic %v); the gene is %v (intergenic %v)", l, got.regions, got.inter, want.regions, want.inter))
+		}
+	}
+	c.Ob("R4/genbank-location/partial-markers-read-or-rejected", len(badPartial) == 0, gp.Pos(), "%s", first(badPartial, 4))
+	c.Count("locations_evaluated", len(locs)+len(partial))
 	c.Ob("R4/genbank-location/positions-and-strand", len(bad) == 0, gp.Pos(), "%s", first(bad, 4))
 	_ = oracle.A
 }
